@@ -39,10 +39,14 @@ package machine
 //@   ensures mem:   forall x E :: mem(ret, x) <==> (exists i int :: 0 <= i && i < len(coll) && coll[i] == x && fn(x, i))
 //@   ensures full:  len(ret) == len(coll) ==> seqeq(ret, coll) && (forall i int :: 0 <= i && i < len(coll) ==> fn(coll[i], i))
 //@   ensures nodup: nodup(coll) ==> nodup(ret)
+//@   ensures memsub:  forall x E :: mem(ret, x) ==> mem(coll, x)
+//@   ensures keepall: len(ret) == len(coll) ==> (forall x E :: mem(coll, x) ==> mem(ret, x))
+//@   ensures allpass: (forall i int :: 0 <= i && i < len(coll) ==> fn(coll[i], i)) ==> seqeq(ret, coll)
 //@   loop 1 invariant sub:  len(ret) <= i && fresh(ret) && !isnil(ret)
 //@   loop 1 invariant mem:  forall x E :: mem(ret, x) <==> (exists j int :: 0 <= j && j < i && coll[j] == x && fn(x, j))
 //@   loop 1 invariant full: len(ret) == i ==> (forall j int :: 0 <= j && j < i ==> ret[j] == coll[j] && fn(coll[j], j))
 //@   loop 1 invariant nodup: nodup(coll) ==> nodup(ret)
+//@   loop 1 invariant allpass: (forall j int :: 0 <= j && j < i ==> fn(coll[j], j)) ==> len(ret) == i && (forall j int :: 0 <= j && j < i ==> ret[j] == coll[j])
 
 //@ func slicesReverse[S ~[]E, E any](coll S) (ret S)
 //@   props C02 C20
@@ -323,3 +327,91 @@ package machine
 //@ func (m *Machine) Has(states S) (r bool)
 //@   props C20
 //@   ensures def: r <==> (!m.disposing && subset(states, m.stateNames))
+
+// ---- trusted frame contracts: step recording ----
+//@ func (t *Transition) isLogSteps() (r bool)
+//@   trusted reads logger configuration only
+//@ func (t *Transition) addSteps(steps ...*Step)
+//@   trusted appends to Transition.Steps (debug trace), which no property mentions
+//@ func newStep(from string, to string, stepType StepType, relType Relation) (r *Step)
+//@   trusted allocates a debug-trace record
+//@ func newSteps(from string, toStates S, stepType StepType, relType Relation) (r []*Step)
+//@   trusted allocates debug-trace records
+//@ func jw(states []string, sep string) (r string)
+//@   trusted log text only
+//@ func (t *Transition) StatesBefore() (ret S)
+//@   trusted cached getter of the active states before the transition (C01 covers the time it is derived from)
+
+// ---- C02: relation resolver ----
+
+// ReqClosed: every member's Require states are members.
+//@ pred ReqClosed(schema Schema, s S) := forall x, r string :: mem(s, x) && mem(schema[x].Require, r) ==> mem(s, r)
+
+//@ func (rr *DefaultRelationsResolver) getMissingRequires(name string, state State, states S) (ret S)
+//@   props C02
+//@   pure
+//@   requires nn: rr.Transition != nil && rr.Transition.Mutation != nil && rr.Transition.Machine != nil
+//@   ensures  def: forall r string :: mem(ret, r) <==> mem(state.Require, r) && !mem(states, r)
+//@   ensures  fresh: fresh(ret)
+//@   loop 1 invariant def: fresh(ret) && (forall r string :: mem(ret, r) <==> (exists j int :: 0 <= j && j < idx1 && state.Require[j] == r && !mem(states, r)))
+
+//@ func (rr *DefaultRelationsResolver) stateBlockedBy(blockingStates S, blocked string) (ret S)
+//@   props C02
+//@   requires nn: rr.Transition != nil && rr.Transition.Mutation != nil && rr.Transition.Machine != nil && rr.Machine != nil
+//@   ensures  def: forall b string :: mem(ret, b) <==> mem(blockingStates, b) && mem(rr.Machine.schema[b].Remove, blocked)
+//@   ensures  fresh: fresh(ret)
+//@   loop 1 invariant def: fresh(blockedBy) && (forall b string :: mem(blockedBy, b) <==> (exists j int :: 0 <= j && j < idx1 && blockingStates[j] == b && mem(rr.Machine.schema[b].Remove, blocked)))
+
+//@ func (rr *DefaultRelationsResolver) parseRequire(states S) (ret S)
+//@   props C02
+//@   irrelevant missingMap
+//@   requires nn: rr.Transition != nil && rr.Transition.Mutation != nil && rr.Transition.Machine != nil && rr.Machine != nil
+//@   ensures  sub:    forall x string :: mem(ret, x) ==> mem(states, x)
+//@   ensures  closed: ReqClosed(rr.Machine.schema, ret)
+//@   ensures  nodup:  nodup(states) ==> nodup(ret)
+//@   loop 1 invariant sub:   forall x string :: mem(states, x) ==> mem(old(states), x)
+//@   loop 1 invariant nodup: nodup(old(states)) ==> nodup(states)
+//@   loop 1 invariant fix:   lengthBefore == len(states) ==> ReqClosed(rr.Machine.schema, states)
+
+// AddApplies: parseAdd follows the Add relation of a state unless it was
+// already active before the transition and is not Multi.
+//@ pred AddApplies(rr *DefaultRelationsResolver, s string) := !(mem(rr.statesBefore, s) && !rr.Machine.schema[s].Multi)
+
+//@ func (rr *DefaultRelationsResolver) parseAdd(states S) (ret S)
+//@   props C02
+//@   requires nn: rr.Transition != nil && rr.Transition.Mutation != nil && rr.Transition.Machine != nil && rr.Machine != nil
+//@   ensures  sup:       forall x string :: mem(states, x) ==> mem(ret, x)
+//@   ensures  justified: forall x string :: mem(ret, x) ==> mem(states, x) || (exists s string :: mem(states, s) && mem(rr.Machine.schema[s].Add, x))
+//@   loop 1 invariant sup:       forall x string :: mem(states, x) ==> mem(ret, x)
+//@   loop 1 invariant justified: forall x string :: mem(ret, x) ==> mem(states, x) || (exists s string :: mem(states, s) && mem(rr.Machine.schema[s].Add, x))
+//@   loop 2 invariant sup:       forall x string :: mem(states, x) ==> mem(ret, x)
+//@   loop 2 invariant justified: forall x string :: mem(ret, x) ==> mem(states, x) || (exists s string :: mem(states, s) && mem(rr.Machine.schema[s].Add, x))
+//@   loop 3 invariant sub:       forall x string :: mem(addStates, x) ==> mem(state.Add, x)
+
+//@ func (rr *DefaultRelationsResolver) SortStates(states S)
+//@   props C02 C05
+//@   mutates states
+//@   requires nn: rr.Transition != nil && rr.Transition.Mutation != nil && rr.Transition.Machine != nil && rr.Machine != nil
+//@   ensures  perm:  len(post(states)) == len(states) && (forall x string :: mem(post(states), x) <==> mem(states, x))
+//@   ensures  nodup: nodup(states) ==> nodup(post(states))
+
+// SchemaRefs: relations of defined states only mention defined states (what
+// Schema.Parse / verifyStates establish for a machine's schema).
+//@ pred SchemaRefs(schema Schema) := forall s, x string :: has(schema, s) && (mem(schema[s].Add, x) || mem(schema[s].Require, x) || mem(schema[s].Remove, x)) ==> has(schema, x)
+
+//@ func (rr *DefaultRelationsResolver) TargetStates(t *Transition, statesToSet, index S) (ret S)
+//@   props C02 C19
+//@   abstracts the closure of the first slicesFilter call (block scan) assigns alreadyBlocked: only the callee's closure-independent postconditions are used for it
+//@   requires nn:     rr != nil && t != nil && t.Machine != nil && t.Mutation != nil
+//@   requires locks:  unlocked(t.Machine.schemaMx)
+//@   requires known:  Known(t.Machine, statesToSet)
+//@   requires refs:   SchemaRefs(t.Machine.schema)
+//@   assigns  rr.Transition, rr.Machine, rr.Index, rr.statesBefore
+//@   ensures  require_closed: ReqClosed(t.Machine.schema, ret)
+//@   ensures  nodup:   nodup(ret)
+//@   ensures  defined: forall x string :: mem(ret, x) ==> has(t.Machine.schema, x)
+//@   ensures  justified_in: forall x string :: mem(ret, x) ==> mem(statesToSet, x) || (exists s string :: has(t.Machine.schema, s) && mem(t.Machine.schema[s].Add, x))
+//@   ensures  remove_consistent_mod_resurrection: forall s, b string :: mem(ret, s) && mem(ret, b) && mem(t.Machine.schema[b].Remove, s) ==> !mem(survivors, b)
+//@   ensures  locks:   unlocked(t.Machine.schemaMx)
+//@   loop 1 let survivors := resolvedS
+//@   loop 1 invariant rm: forall j int, x string :: 0 <= j && j < idx1 && mem(t.Machine.schema[resolvedS[j]].Remove, x) ==> mem(toRemove, x)
